@@ -93,6 +93,9 @@ SIZES = {
 }
 
 
+ERRNO = st.sampled_from(['EACCES', 'EIO', 'ESTALE'])
+
+
 def _op_strategies(nown, picked):
     slot = st.integers(0, nown - 1)
     pool = st.integers(0, 1)
@@ -118,6 +121,8 @@ def _op_strategies(nown, picked):
                          ip=st.sampled_from(picked))),
         (4, REAP, _fixed('vip', 'gc', p=pool)),
         (1, MISC, _fixed('vip', 'init', p=pool)),
+        # os.stat fails once during the next gc/init pass of this manager
+        (2, REAP, _fixed('vip', 'fsfault', errno=ERRNO, k=st.integers(1, 4))),
     ]
     ridx = st.integers(0, len(netfs.RULES) - 1)
     rule = [
@@ -129,6 +134,8 @@ def _op_strategies(nown, picked):
         (1, DROP, _fixed('rule', 'unlink', o=slot, old=OLD, r=ridx)),
         (4, REAP, _fixed('rule', 'gc')),
         (1, MISC, _fixed('rule', 'init')),
+        (2, REAP, _fixed('rule', 'fsfault', errno=ERRNO,
+                         k=st.integers(1, 4))),
     ]
     sidx = st.integers(0, len(netfs.SPECS) - 1)
     form = st.sampled_from(['path', 'base'])
@@ -145,6 +152,7 @@ def _op_strategies(nown, picked):
             endpoint=st.sampled_from([None, None, None, 'http', 'ssh']))),
         (4, REAP, _fixed('ep', 'gc')),
         (1, MISC, _fixed('ep', 'init')),
+        (2, REAP, _fixed('ep', 'fsfault', errno=ERRNO, k=st.integers(1, 4))),
     ]
     svc = [
         (6, MAKE, _fixed('svc', 'req', o=slot, sel=sel)),
@@ -158,6 +166,8 @@ def _op_strategies(nown, picked):
                          k=st.integers(1, 4))),
         (2, DROP, _fixed('svc', 'fault', on=st.sampled_from(['ipt', 'net']),
                          k=st.integers(1, 7))),
+        # os.stat fails once in the vips GC of the next start-up
+        (1, REAP, _fixed('svc', 'fsfault', errno=ERRNO, k=st.integers(1, 3))),
     ]
     return {'own': own, 'vip': vip, 'rule': rule, 'ep': ept, 'svc': svc}
 
@@ -232,6 +242,8 @@ def execute(case, stats):
         stats.count('cases.gc-mixed')
     if flags.get('fault'):
         stats.count('cases.fault-fired')
+    if flags.get('fsfault'):
+        stats.count('cases.fs-fault-fired')
     return bool(flags.get('contended') and flags.get('gc_mixed'))
 
 
@@ -329,5 +341,30 @@ def fixed_cases():
         {'mgr': 'svc', 'op': 'del', 'o': 2},
         {'mgr': 'svc', 'op': 'restart'},
     ]
-    return [('aimed-svc-faults', svc_fault), ('aimed-vip', vip), ('aimed-rule', rule), ('aimed-ep', ept),
+    fsf = [
+        {'mgr': 'cfg', 'cidr': '10.10.0.0/29', 'cidr2': None,
+         'svc_cidr': None},
+        _up(0), _up(1), _up(2),
+    ]
+    for slot in (0, 1, 2, 3):
+        fsf.append({'mgr': 'vip', 'op': 'alloc', 'p': 0, 'o': slot,
+                    'ip': None})
+        fsf.append({'mgr': 'rule', 'op': 'create', 'o': slot, 'r': slot})
+        fsf.append({'mgr': 'ep', 'op': 'create', 'o': slot, 's': slot})
+    for mgr in ('vip', 'rule', 'ep'):
+        for k in (1, 2, 3, 4):
+            fsf.append({'mgr': mgr, 'op': 'fsfault', 'errno': 'EACCES',
+                        'k': k})
+            fsf.append({'mgr': mgr, 'op': 'gc', 'p': 0})
+    fsf += [
+        {'mgr': 'vip', 'op': 'alloc', 'p': 0, 'o': 2, 'ip': None},
+        {'mgr': 'svc', 'op': 'req', 'o': 0},
+        {'mgr': 'svc', 'op': 'req', 'o': 1},
+        {'mgr': 'svc', 'op': 'fsfault', 'errno': 'EIO', 'k': 1},
+        {'mgr': 'svc', 'op': 'restart'},
+        {'mgr': 'svc', 'op': 'restart'},
+        {'mgr': 'svc', 'op': 'req', 'o': 2},
+    ]
+    return [('aimed-svc-faults', svc_fault), ('aimed-fs-faults', fsf),
+            ('aimed-vip', vip), ('aimed-rule', rule), ('aimed-ep', ept),
             ('aimed-svc-small', svc), ('aimed-svc-16', svc_big)]
